@@ -1056,11 +1056,16 @@ def main(tier):
         if clean and r["verdict"] in ("ACCEPT", "REJECT") and not lab.startswith("tmproj:"):
             base.append((lab, m, f, r, fam))
     # ---- the tagging-mode layer: verdicts and EMITTED tags along reference chains (lib/c11_tagmode.py)
+    import time
+    t0 = time.time()
     ntm = TM.run_layer(run, Rng(run.seed * 7919 + 11), tier, model, asn1c, skel, scratch(), NCPU, run_lines)
+    t1 = time.time()
     # ---- wave 4: faults next to a recorded WARNING status (lib/c11_status.py), parameterized types (lib/c11_param.py)
     nst = ST.run_layer(run, Rng(run.seed * 104729 + 5), tier, model, asn1c, skel, scratch(), NCPU, run_lines, base,
                        def_lines, tagging_txt, DIAG)
+    t2 = time.time()
     npm = PM.run_layer(run, Rng(run.seed * 15485863 + 3), tier, model, asn1c, skel, scratch(), NCPU, run_lines, sys.modules[__name__])
+    sys.stderr.write("c11 layers: tagmode %.1fs (%d) status %.1fs (%d) param %.1fs (%d)\n" % (t1 - t0, ntm, t2 - t1, nst, time.time() - t2, npm))
     for i in (0, len(cases) // 3, 2 * len(cases) // 3, len(cases) - 1):
         run.sample({"label": cases[i][0], "asn1": texts[i], "model": mo[i], "asn1c": {k: results[i][k] for k in ("rc", "verdict", "classes", "nfiles")}})
     tb = ["Coq 8.16.1 kernel + vm_compute (refuted witnesses only)",
